@@ -372,7 +372,7 @@ theorem shape_PrecertChainEntry (v : Val) (x : Bytes) (h : enc xPrecertChainEntr
   obtain ⟨xs, rfl⟩ := encListWith_shape xASN1Cert asn1CertVal shape_ASN1Cert ws body hb
   exact ⟨⟨p, xs⟩, rfl⟩
 
-/-- the repository's extension: an entry of type 0x8000 (`XJSONLogEntryType`) carrying a `JSONDataEntry`, which RFC 6962 does not have -/
+/-- the repository's extension: an entry of type 0x8000 carrying a `JSONDataEntry`, which RFC 6962 does not have -/
 def IsJsonTE (v : Val) : Prop :=
   ∃ ts d ext, v = .struct [.num ts, .num 32768, .absent, .absent, .struct [.bytes d], .bytes ext]
 
